@@ -62,12 +62,13 @@ Definition check_sel_prefix (c : sel_case) : N :=
      else match vals with [] => true | _ => false end) in
   ((if agree then 1 else 0) + (if spec then 2 else 0) + (if cls then 4 else 0))%N.
 
-(* binom alone: (n, k, Some result | None = the implementation panicked on arithmetic overflow) *)
+(* binom alone: (n, k, Some result | None = the implementation panicked).  Specification since fix f71c4f2: the exact count, or
+   usize::MAX when the count does not fit -- for every n and k *)
 Definition binom_case := (nat * nat * option N)%type.
 Definition check_binom (c : binom_case) : N :=
   let '(n, k, b) := c in
   let model := binom64 (N.of_nat n) (N.of_nat k) in
   let agree := match model, b with Some x, Some y => N.eqb x y | None, None => true | _, _ => false end in
-  let cls := n <=? 57 in
-  let spec := if cls then match b with Some y => N.eqb y (CN n k) | None => false end else true in
+  let cls := k <=? n in
+  let spec := match b with Some y => N.eqb y (N.min (CN n k) MAXU) | None => false end in
   ((if agree then 1 else 0) + (if spec then 2 else 0) + (if cls then 4 else 0))%N.
